@@ -29,7 +29,7 @@ ASSUMPTIONS = [
     "docs=False, in_hierarchy=False, default resources",
 ]
 OUTSIDE = "programs outside corpus K01, identifiers longer than one letter, module/package renames (covered with C05), docs=True"
-BOUNDS = {"quick": {"corpus": "K01", "collector_L": 4}, "thorough": {"corpus": "K01", "collector_L": 6}}
+BOUNDS = {"quick": {"corpus": "K01", "collector_L": 4, "collector_L3": 2}, "thorough": {"corpus": "K01", "collector_L": 5, "collector_L3": 3}}
 CORPUS = K01
 
 
@@ -41,6 +41,8 @@ def instances(tier):
             out.append(("rename.%s.q%02d" % (sk.name, q), dict(kind="rename", k=k, q=q)))
     for L in range(0, BOUNDS[tier]["collector_L"] + 1):
         for n in (1, 2, 3):
+            if n == 3 and L > BOUNDS[tier]["collector_L3"]:
+                continue
             out.append(("collector.L%d.n%d" % (L, n), dict(kind="collector", L=L, n=n)))
     return out
 
